@@ -59,6 +59,14 @@ CLAIMED = {
             "rank lists, non-contiguous and lazily conjugated core views, requires_grad cores), all four dtypes.",
             "Trusted: torch.equal, storage pointers, the checker's dense contraction. CPU only.",
             "DESIGN.md 4/C19"),
+    "C17": ("differential property-based testing (Hypothesis): C11/C12 generators run through the Python and the freshly compiled C++ backend in one process, both against the dense oracle and against each other, with crash journaling",
+            "The extension is rebuilt from the working tree's cpp/ whenever it changes; each generated case runs both "
+            "backends, checks the C12 residual / C11 product bound for each, their mutual agreement, that C++ accepts what "
+            "Python accepts (a dead shard process is converted into a replay via a per-case journal) and that operands are "
+            "untouched by the C++ call.",
+            "Trusted: g++ -std=c++20 build of the repository's sources (its own recipe's -std=c++17 is rejected by the "
+            "installed torch headers). If the build fails the check exits 2 (inconclusive).",
+            "DESIGN.md 4/C17"),
     "C18": ("property-based testing (Hypothesis): catalogue of single-aspect invalidations of valid generated calls for every public entry point; must-raise (and documented-class) oracle with a valid twin executed alongside",
             "For ~90 (entry point x incompatibility class) catalogue entries a valid call is generated and broken in "
             "exactly one aspect known to have no dense counterpart; the invalid call must raise (hard) and, where the "
